@@ -264,3 +264,95 @@ func ruleAtomSection(w *World, r *Report) {
 		}
 	}
 }
+
+// LOCKSET-DEEP (thorough): what is reached through a guarded map is guarded too.  A call made by a State
+// implementation that hands (part of) a stored fact to a function that may write through that parameter is
+// a write access to the fact map's contents and needs the state's write lock.
+func ruleLocksetDeep(w *World, r *Report) {
+	a := newLocAnchors(w)
+	m := newModEngine(w, func(f *ssa.Function) bool { return w.IsRulio(f) })
+	var guards []*guardSpec
+	extra := func(fn *ssa.Function, ins ssa.Instruction) (string, string, string, bool) {
+		owner, ok := stateOwnerOf(a, fn)
+		if !ok || stateFactField[owner] == "" {
+			return "", "", "", false
+		}
+		ff := stateFactField[owner]
+		stored := func(v ssa.Value) bool {
+			return dependsOnProjection(v, func(x ssa.Value) bool { return loadedFromFactMap(owner, x) })
+		}
+		// direct deep writes: a map update / store through a value that came out of the fact map
+		switch x := ins.(type) {
+		case *ssa.MapUpdate:
+			if !isFieldLoad(x.Map, owner, ff) && stored(x.Map) {
+				return owner + "." + ff + "[*] (stored fact)", owner + ".RWMutex", "write", true
+			}
+		case ssa.CallInstruction:
+			c := x.Common()
+			f := c.StaticCallee()
+			if f == nil || !w.IsRulio(f) {
+				return "", "", "", false
+			}
+			for ai, arg := range c.Args {
+				if !stored(arg) {
+					continue
+				}
+				if ok, _ := m.mutatesParamSpec(f, ai, specOf(c, f)); ok {
+					return owner + "." + ff + "[*] (stored fact) via " + fname(f), owner + ".RWMutex", "write", true
+				}
+			}
+		}
+		return "", "", "", false
+	}
+	runLocksetX(w, r, "LOCKSET-DEEP", guards, extra,
+		"deep guard (thorough tier): a stored fact reached through the guarded fact map is guarded too; every write through it (directly, or by a callee that may write through the parameter it is handed, by MOD analysis) happens under the state's write lock", 2)
+}
+
+// dependsOnProjection: v is a projection (element, field, conversion, assertion) of a value satisfying pred.
+func dependsOnProjection(v ssa.Value, pred func(ssa.Value) bool) bool {
+	for d := 0; d < 12 && v != nil; d++ {
+		if pred(v) {
+			return true
+		}
+		switch x := v.(type) {
+		case *ssa.Extract:
+			v = x.Tuple
+		case *ssa.ChangeType:
+			v = x.X
+		case *ssa.ChangeInterface:
+			v = x.X
+		case *ssa.MakeInterface:
+			v = x.X
+		case *ssa.TypeAssert:
+			v = x.X
+		case *ssa.Field:
+			v = x.X
+		case *ssa.Lookup:
+			if pred(x) {
+				return true
+			}
+			v = x.X
+		case *ssa.UnOp:
+			v = x.X
+		case *ssa.FieldAddr:
+			v = x.X
+		case *ssa.Alloc:
+			// a local copy of a struct taken out of the map (range value): follow its single store
+			var sv ssa.Value
+			n := 0
+			for _, ref := range *x.Referrers() {
+				if st, ok := ref.(*ssa.Store); ok && st.Addr == x {
+					sv = st.Val
+					n++
+				}
+			}
+			if n != 1 {
+				return false
+			}
+			v = sv
+		default:
+			return false
+		}
+	}
+	return false
+}
